@@ -12,7 +12,7 @@ import (
 
 func init() { Registry["C10"] = runC10 }
 
-const explanationC10 = "Decides structural necessary conditions of C10: (R10.1) in protoBufMessageDef the field number printed for a field is rpcTag of the very attribute whose name and type are printed (object fields and oneof values); (R10.2) the gRPC validators visit every message/metadata attribute — no early exit from a loop that records errors, no stale search flag, validate* helpers wired with their result consumed; (R10.3) the runtime handlers call the endpoint only after a successful decode, with the decoded request, encode only after a successful endpoint call, and send headers/trailers only after a successful encode; decode failures that are not service errors become InvalidArgument; (R10.4) the streaming keywords of the generated service definition are driven by literals equal to expr's stream-kind constants, request side = client|bidirectional, response side = server|bidirectional; (R10.5) gRPC status mapping tables and ErrorResponse field fidelity (shared with C18); (R10.6) the string⇄typed conversion templates used for metadata use the strconv family, bit size and cast that belong to each primitive type; (R10.7) set/memo maps of the proto generators are tested and filled under the same key (no message emitted twice), and template range bodies use their element. NOT decided: proto3 well-formedness of the generated file (no protoc here; parsing generated text is execution of the generator) and the conversion round trip of values."
+const explanationC10 = "Decides structural necessary conditions of C10: (R10.1) in protoBufMessageDef the field number printed for a field is rpcTag of the very attribute whose name and type are printed (object fields and oneof values); (R10.2) the gRPC validators visit every message/metadata attribute — no early exit from a loop that records errors, no stale search flag, validate* helpers wired with their result consumed; (R10.3) the runtime handlers call the endpoint only after a successful decode, with the decoded request, encode only after a successful endpoint call, and send headers/trailers only after a successful encode; decode failures that are not service errors become InvalidArgument; (R10.4) the streaming keywords of the generated service definition are driven by literals equal to expr's stream-kind constants, request side = client|bidirectional, response side = server|bidirectional; (R10.5) gRPC status mapping tables and ErrorResponse field fidelity (shared with C18); (R10.6) the string⇄typed conversion templates used for metadata use the strconv family, bit size and cast that belong to each primitive type; (R10.7) set/memo maps of the proto generators are tested and filled under the same key (no message emitted twice), and template range bodies use their element; (R10.8) encoders guard fields against nil only; (R10.9) the client invoker attaches the metadata after encoding and before the remote call; (R10.10) the required flag is propagated for every element of a Finalize loop. NOT decided: proto3 well-formedness of the generated file (no protoc here; parsing generated text is execution of the generator) and the conversion round trip of values."
 
 func runC10(c *an.Ctx) string {
 	r101FieldNumbers(c)
